@@ -438,6 +438,12 @@ class WebsocketSession(object):
                         for event in self.websocket.feed(data):
                             self._on_event(event, auto_pong)
                             yield event
+                            if event.name in ('closed', 'protocol_error'):
+                                # The websocket ends the connection as
+                                # soon as it is resumed; no timeout may
+                                # fire and no ping go out in between,
+                                # however long the event was handled.
+                                continue
                             for event in _regular():
                                 yield event
                     else:
